@@ -28,10 +28,10 @@ Definition obs_all (u : list nodeT) (T : nat) (froms : list nat) (s : store) :=
   (obs_tags T s, map (fun f => obs_tags_from T f s) froms, map (obs_resolve_tag s) (seq 0 T),
    map (fun k => (obs_resolve_dig (u_dflt u) s k, obs_exists s k, obs_preds (length u) (u_succs u) s k))
        (seq 0 (length u))).
-Definition vm_case (u : list nodeT) (T : nat) (froms : list nat) (cfg : config) (h : list (op * orders)) :=
+Definition vm_case (u : list nodeT) (badl : list nat) (T : nat) (froms : list nat) (cfg : config) (h : list (op * orders)) :=
   let N := length u in
   let sr := fold_left (fun acc oo =>
-              let r := step N (u_mf u) (u_succs u) (u_subj u) (u_sk u) true true true true cfg (fst acc) oo in
+              let r := step N (u_mf u) (u_succs u) (u_subj u) (u_sk u) (fun k => mem k badl) true true true true true cfg (fst acc) oo in
               (fst r, snd acc ++ [snd r])) h (store_empty, []) in
   let s := fst sr in
   (snd sr, obs_all u T froms s, obs_all u T froms (reopen N (u_mf u) (u_succs u) s), disk_valid s).
@@ -106,9 +106,11 @@ def _vm_goal(cid, case, out):
     cfg = "(mkCfg %s %s)" % ("true" if p[2] == "1" else "false", "true" if p[3] == "1" else "false")
     n, T = int(p[4]), int(p[5])
     froms = [int(x) for x in p[6].split(",")]
-    nodes = []
+    nodes, badl = [], []
     for tok in p[7:7 + n]:
         fl, su, sb = tok.split(":")
+        if len(fl) > 3 and fl[3] == "x":
+            badl.append(len(nodes))
         nodes.append("(%s, %s, %s, %s, %s)" % (
             "true" if fl[0] == "m" else "false", "true" if fl[1] == "d" else "false",
             "true" if fl[2] == "s" else "false",
@@ -120,7 +122,8 @@ def _vm_goal(cid, case, out):
     lcg = _Lcg(cid)
     hist, results = [], []
     rmap = {"ok": "ROk", "exists": "RAlreadyExists", "notfound": "RNotFound",
-            "invalidref": "RInvalidReference", "hang": "RHang", "fuel": "ROutOfFuel"}
+            "invalidref": "RInvalidReference", "hang": "RHang", "fuel": "ROutOfFuel",
+            "badcontent": "RBadContent"}
     for op, r in zip(ops, res):
         a = op[1:]
         if op[0] in "CX":
@@ -130,7 +133,8 @@ def _vm_goal(cid, case, out):
         elif op[0] == "T":
             k, x, an, rf = a.split(":")
             t = "OTag (mkDesc %s %s %s) %s" % (k, x, "None" if an == "-" else "(Some (RTag %s))" % an,
-                                               "(RDig %s)" % k if rf == "d" else "(RTag %s)" % rf)
+                                               "(RDig %s)" % k if rf == "d" else
+                                               "(RDig %s)" % rf[1:] if rf[0] == "D" else "(RTag %s)" % rf)
         elif op[0] == "U":
             t = "OUntag (RTag %s)" % a
         elif op[0] == "V":
@@ -158,8 +162,8 @@ def _vm_goal(cid, case, out):
     o1, o2 = _vm_obs(f[0], n, T, froms), _vm_obs(f[1], n, T, froms)
     if o1 is None or o2 is None or f[1] != f[2] or f[1] != f[3]:
         return None
-    return "vm_case [%s] %d %s %s [%s] = ([%s], %s, %s, %s)" % (
-        ";".join(nodes), T, _vm_nats(froms), cfg, ";\n  ".join(hist), ";".join(results), o1, o2,
+    return "vm_case [%s] %s %d %s %s [%s] = ([%s], %s, %s, %s)" % (
+        ";".join(nodes), _vm_nats(badl), T, _vm_nats(froms), cfg, ";\n  ".join(hist), ";".join(results), o1, o2,
         "true" if f[4] == "v1" else "false")
 
 
